@@ -35,6 +35,9 @@ def main():
         key = (fnd["commit"], fnd["property"])
         if key in seen or (want and fnd["property"] not in want):
             continue
+        only = [c for c in os.environ.get("SELFTEST_COMMITS", "").split(",") if c]
+        if only and not any(fnd["commit"].startswith(c) for c in only):
+            continue
         seen.add(key)
         if fnd["property"] not in props.PROPS:
             rows.append((fnd["commit"], fnd["property"], "SKIP (property not claimed)", 0))
